@@ -420,6 +420,14 @@ pub fn build_muxer<W: Write>(w: W, cfg: &CCfg) -> Result<Muxer<W>, MuxerError> {
         if let Some(fs) = cfg.fast_start {
             b = b.with_fast_start(!fs);
         }
+        // the fragmented-only parameter setters (documented as ignored by build()): a complete, plausible group for the SAME
+        // codec - the progressive file must still take its configuration from the first keyframe
+        b = b
+            .with_sps(vec![0x67, 0x42, 0x00, 0x1e, 0x8d, 0x68, 0x50, 0x1e])
+            .with_pps(vec![0x68, 0xce, 0x3c, 0x80])
+            .with_vps(vec![0x40, 0x01, 0x0c, 0x01, 0xff, 0xff, 0x01, 0x60])
+            .with_av1_sequence_header(crate::gen::obu(1, false, 0, true, 0, &crate::gen::Av1Seq::simple().payload()))
+            .with_vp9_config(muxide::codec::vp9::Vp9Config { width: 64, height: 64, profile: 1, bit_depth: 8, color_space: 2, transfer_function: 2, matrix_coefficients: 2, level: 10, full_range_flag: 1 });
     }
     if cfg.video {
         b = if cfg.alias_builder {
